@@ -36,6 +36,17 @@ var solvers = []solverSpec{
 	}},
 }
 
+// extraSolvers: further configurations raced only in the second pass (undecided obligations): another seed for z3 and
+// enumerative instantiation for cvc5 - a different search order often decides a quantified goal the default one gives up on.
+var extraSolvers = []solverSpec{
+	{"z3-new/seed11", func(f string, t int) []string {
+		return []string{"z3-new", fmt.Sprintf("-T:%d", t), "smt.random_seed=11", f}
+	}},
+	{"cvc5/enum", func(f string, t int) []string {
+		return []string{"cvc5", fmt.Sprintf("--tlimit=%d", t*1000), "--lang=smt2", "--full-saturate-quant", f}
+	}},
+}
+
 // collectConsts returns the declared constants with the given prefix that occur in ts.
 func collectConsts(ts []*Term, prefix string) []*Term {
 	seen := map[*Term]bool{}
@@ -274,7 +285,13 @@ func (x *Exec) solveAllSplit(obls []*Obligation, dir string, timeoutS int, agree
 		if p2 < 2 {
 			p2 = 2
 		}
+		for _, o := range again {
+			fmt.Fprintf(os.Stderr, "second pass: %s was %s %v %s\n", o.Name, o.Result.Status, o.Result.All, firstLines(o.Result.Output, 2))
+		}
+		base := solvers
+		solvers = append(append([]solverSpec{}, base...), extraSolvers...)
 		x.solveAll(again, dir, timeoutS*3, agree, p2)
+		solvers = base
 	}
 	return out
 }
